@@ -219,7 +219,7 @@ var c20Helpers = []c20Helper{
 	}},
 	{"MarshalJSON", []string{"top", "list", "prop"}, func(it ap.Item) string { _, _ = ap.MarshalJSON(it); return "" }},
 	{"GobEncode", []string{"top", "list", "prop"}, func(it ap.Item) string { _, _ = ap.GobEncode(it); return "" }},
-	{"CollectionPath.IRI/Of/AddTo", []string{"top", "collection-prop"}, func(it ap.Item) string {
+	{"CollectionPath.IRI/Of/AddTo", []string{"top", "list", "list1", "collection-prop"}, func(it ap.Item) string {
 		for _, c := range []ap.CollectionPath{ap.Inbox, ap.Outbox, ap.Liked, ap.Following, ap.Followers, ap.Likes, ap.Shares, ap.Replies} {
 			_ = c.IRI(it)
 			_ = c.Of(it)
